@@ -881,3 +881,186 @@ def scope_probes(rng):
         ("when-unless", ["(define n 0)", "(list (when (< {a} {b}) (set! n (+ n 1)) n) (unless (< {a} {b}) (set! n (+ n 10)) n) n)"]),
     ]
     return [(name, [f.format(**d) for f in forms]) for name, forms in T]
+
+
+# ------------------------------------------------------------------------------------------
+# C06: datum trees and their layouts
+# ------------------------------------------------------------------------------------------
+class DatumGen:
+    """a datum is a python tree: ("int", z) ("rat", n, d) ("real", text) ("bool", b) ("char", c) ("str", s)
+    ("sym", name) ("qsym", name) ("list", [items], tail or None) ("vec", [items]) ("quote", d)"""
+    IDENTS = ["a", "b", "foo", "list->vector", "x1", "!", "$", "%", "&", "*", "/", ":", "<", "=", ">", "?", "^", "_", "~",
+              "<=?", "a.b", "a+b", "a-b", "a@b", "+", "-", "...", "+soup+", "->x", "-a", "..", "+@"]
+
+    def __init__(self, rng):
+        self.rng = rng
+
+    def atom(self):
+        r = self.rng
+        k = r.random()
+        if k < 0.25:
+            return ("int", r.choice([0, 1, -1, 7, 42, -42, 2147483647, -2147483648, r.randint(-10 ** 6, 10 ** 6)]))
+        if k < 0.33:
+            d = r.choice([2, 3, 7, 10, 4])
+            return ("rat", r.choice([1, -1, 3, -7, 22, 6]), d)
+        if k < 0.42:
+            return ("real", r.choice(["1.5", "-0.25", "3.", "1e3", "1.5e-3", "-2.5e+2", "0.1", "12.75", "+1.0", "1e0", "100.0"]))
+        if k < 0.50:
+            return ("bool", r.random() < 0.5)
+        if k < 0.58:
+            return ("char", r.choice(list("aZ09(); \"'#.|\\") + ["é", "中"]))
+        if k < 0.68:
+            n = r.randint(0, 5)
+            s = "".join(r.choice(list("ab ()\";|\\\n\t") + ["é"]) for _ in range(n))
+            return ("str", s)
+        if k < 0.93:
+            return ("sym", r.choice(self.IDENTS))
+        return ("qsym", r.choice(["hello world", "a(b", "", "semi;colon", "x\"y"]))
+
+    def datum(self, depth):
+        r = self.rng
+        if depth <= 0 or r.random() < 0.35:
+            return self.atom()
+        k = r.random()
+        if k < 0.6:
+            items = [self.datum(depth - 1) for _ in range(r.randint(0, 5))]
+            tail = None
+            if items and r.random() < 0.25:
+                tail = self.datum(depth - 1)
+                if tail[0] == "list" and tail[2] is None:
+                    tail = None    # (a . (b c)) reads as (a b c): keep the tree canonical
+            return ("list", items, tail)
+        if k < 0.85:
+            return ("vec", [self.datum(depth - 1) for _ in range(r.randint(0, 4))])
+        return ("quote", self.datum(depth - 1))
+
+    # tokens of a datum: list of (text, self_delimiting_left, self_delimiting_right)
+    def tokens(self, d):
+        t = d[0]
+        if t == "int":
+            return [str(d[1])]
+        if t == "rat":
+            return ["%d/%d" % (d[1], d[2])]
+        if t == "real":
+            return [d[1]]
+        if t == "bool":
+            return ["#t" if d[1] else "#f"]
+        if t == "char":
+            return ["#\\" + d[1]]
+        if t == "str":
+            esc = {"\"": "\\\"", "\\": "\\\\", "\n": "\\n", "\t": "\\t"}
+            return ["\"" + "".join(esc.get(c, c) for c in d[1]) + "\""]
+        if t == "sym":
+            return [d[1]]
+        if t == "qsym":
+            return ["|" + d[1] + "|"]
+        if t == "list":
+            out = ["("]
+            for x in d[1]:
+                out += self.tokens(x)
+            if d[2] is not None:
+                out += ["."] + self.tokens(d[2])
+            return out + [")"]
+        if t == "vec":
+            out = ["#("]
+            for x in d[1]:
+                out += self.tokens(x)
+            return out + [")"]
+        if t == "quote":
+            return ["'"] + self.tokens(d[1])
+        raise ValueError(d)
+
+    def separator(self, mandatory):
+        r = self.rng
+        k = r.random()
+        if not mandatory and k < 0.4:
+            return ""
+        parts = []
+        for _ in range(r.randint(1, 3)):
+            parts.append(r.choice([" ", " ", "  ", "\t", "\n", "\r\n", " ; c (omment \"\n", ";\n", "\n\n"]))
+        return "".join(parts)
+
+    def render(self, toks):
+        """tokens joined by random admissible separators: a separator may be empty only next to a
+        parenthesis, a quote mark, or before/after a string or |identifier| delimiter"""
+        out = []
+        for i, t in enumerate(toks):
+            if i > 0:
+                prev = toks[i - 1]
+                # the previous token ends by itself: ( #( ' ) " |   ; the next one starts a new token by itself: ( ) " | ;
+                left_self = prev in ("(", "#(", "'") or prev.endswith(")") and prev == ")" or prev.endswith("\"") and len(prev) > 1 and prev[0] == "\"" \
+                    or (prev.startswith("|") and prev.endswith("|") and len(prev) > 1)
+                right_self = t in ("(", ")") or t.startswith("\"") or t.startswith("|")
+                # characters swallow whatever follows only one char, but #\a followed directly by b would
+                # still lex (known: no delimiter needed after a character or boolean): keep a separator there
+                if prev.startswith("#\\") or prev in ("#t", "#f"):
+                    left_self = False
+                    right_self = right_self and False
+                if prev == "'" :
+                    left_self = True
+                if prev == ")" :
+                    left_self = t in ("(", ")") or t.startswith("\"") or t.startswith("|") or t in ("'",) or t == "#("
+                    right_self = left_self
+                mandatory = not (left_self or right_self)
+                if prev == "." or t == ".":
+                    mandatory = mandatory or (t == "." and not prev in ("(",)) or (prev == "." and not (t in ("(", ")") or t.startswith("\"") or t.startswith("|")))
+                out.append(self.separator(mandatory))
+            out.append(t)
+        return "".join(out)
+
+    def canon(self, d, first_vector_id=0):
+        """the canonical value line the harness / driver print for (quote d) (vector ids numbered by first
+        occurrence within the case)"""
+        self._vid = first_vector_id
+        return self._canon(d)
+
+    def count_vectors(self, d):
+        t = d[0]
+        if t == "vec":
+            return 1 + sum(self.count_vectors(x) for x in d[1])
+        if t == "list":
+            return sum(self.count_vectors(x) for x in d[1]) + (self.count_vectors(d[2]) if d[2] is not None else 0)
+        if t == "quote":
+            return self.count_vectors(d[1])
+        return 0
+
+    def _canon(self, d):
+        t = d[0]
+        if t == "int":
+            return "i%d" % d[1]
+        if t == "rat":
+            from math import gcd
+            n, dd = d[1], d[2]
+            g = gcd(abs(n), dd)
+            n, dd = n // g, dd // g
+            return "i%d" % n if dd == 1 else "q%d/%d" % (n, dd)
+        if t == "real":
+            import struct
+            return "r%08x" % struct.unpack("<I", struct.pack("<f", float(d[1])))[0]
+        if t == "bool":
+            return "#t" if d[1] else "#f"
+        if t == "char":
+            return "(char %d)" % ord(d[1])
+        if t == "str":
+            return "(str %s)" % d[1].encode().hex()
+        if t in ("sym", "qsym"):
+            return "(sym %s)" % d[1].encode().hex()
+        if t == "list":
+            tail = self._canon_tail(d)
+            return tail
+        if t == "vec":
+            vid = self._vid
+            self._vid += 1
+            return "(vec l #%d [%s])" % (vid, " ".join(self._canon(x) for x in d[1]))
+        if t == "quote":
+            return "(pair (sym 71756f7465) (pair %s ()))" % self._canon(d[1])
+        raise ValueError(d)
+
+    def _canon_tail(self, d):
+        items = d[1]
+        parts = [self._canon(x) for x in items]
+        tail = self._canon(d[2]) if d[2] is not None else "()"
+        s = tail
+        for p in reversed(parts):
+            s = "(pair %s %s)" % (p, s)
+        return s
